@@ -165,6 +165,15 @@ Proof. intros. apply D_plus; auto. Qed.
 Lemma D_lit_eol l : D (Seq (Lit l) Eol) (l ++ []) [] [].
 Proof. eapply D_seq; [apply D_lit|apply D_eol|reflexivity]. Qed.
 
+Lemma D_opt_some a s rest c : D a s rest c -> D (Opt a) s rest c.
+Proof. cbn [D]; auto. Qed.
+Lemma D_opt_none a rest : D (Opt a) [] rest [].
+Proof. cbn [D]; auto. Qed.
+Lemma D_alt_l a b s rest c : D a s rest c -> D (Alt a b) s rest c.
+Proof. cbn [D]; auto. Qed.
+Lemma D_alt_r a b s rest c : D b s rest c -> D (Alt a b) s rest c.
+Proof. cbn [D]; auto. Qed.
+
 (* build a D derivation for a string already presented as nested appends *)
 Ltac dI :=
   repeat lazymatch goal with
@@ -177,7 +186,7 @@ Ltac dI :=
   | |- D (NGrp ?a) ?s ?r ?c => change (D a s r c)
   end.
 
-Ltac dI' := dI; eauto; try reflexivity; try (match goal with H : D _ _ _ _ |- _ => exact H end).
+Ltac dI' := dI; eauto; try reflexivity; try (match goal with H : D _ _ _ _ |- _ => exact H end); try reflexivity.
 
 (* where can a keyword segment sit in a built repository path?  only in the layout suffix *)
 Lemma kw_scan_root P kw Y r SUF : hd 0 kw = 95 -> repo_ok r = true ->
